@@ -389,6 +389,12 @@ func Generate(property, tier string, seed uint64) *Trace {
 		tr.Config.Replicas[nRep-1].Noise = true
 	case "query", "restart", "adversary", "governance":
 		tr.Config.Replicas[len(tr.Config.Replicas)-1].Noise = true
+	default:
+		// whatever the run is about, a node also answers CheckTx, Simulate and queries while it executes blocks
+		if mode != "crash" && r.Chance(0.4) {
+			g.cfg.roRate = 0.08
+			tr.Config.Replicas[len(tr.Config.Replicas)-1].Noise = true
+		}
 	}
 	// ---- model of the generator
 	g.m = NewModel(g.kr, gen)
